@@ -270,22 +270,37 @@ def rule_layout(ctx):
 def rule_perm(ctx):
     r = RuleResult("C11-PERM", "transposition tuples have the direction source.index(ix) for ix in target", 4)
     m = ctx.p.module(C.CONTRACT)
-    for fname in (PLAN, "_parse_einsum_single"):
-        f = ctx.p.func(C.CONTRACT, fname)
+    anchors = (PLAN, "_parse_einsum_single")
+    for a_ in anchors:
+        C.require(ctx.p.func(C.CONTRACT, a_) is not None, f"{a_} not found")
+    # (seed C11_5) every function of the module is scanned, and the `tuple(map(x.index, y))` spelling is read too
+    for f in sorted(m.all_funcs, key=lambda f_: (f_.name not in anchors, f_.node.lineno)):
+        fname = f.name
         for n in walk_local(f.node):
-            if not (isinstance(n, ast.Call) and dotted(n.func) == "tuple" and n.args
-                    and isinstance(n.args[0], ast.GeneratorExp)):
+            if not (isinstance(n, ast.Call) and dotted(n.func) == "tuple" and n.args):
                 continue
             g = n.args[0]
-            e = g.elt
-            if not (isinstance(e, ast.Call) and isinstance(e.func, ast.Attribute) and e.func.attr == "index"
-                    and isinstance(e.func.value, ast.Name) and e.args and isinstance(e.args[0], ast.Name)):
+            if isinstance(g, ast.GeneratorExp):
+                e = g.elt
+                if not (isinstance(e, ast.Call) and isinstance(e.func, ast.Attribute) and e.func.attr == "index"
+                        and isinstance(e.func.value, ast.Name) and e.args and isinstance(e.args[0], ast.Name)):
+                    continue
+                gen = g.generators[0]
+                if not (isinstance(gen.target, ast.Name) and gen.target.id == e.args[0].id
+                        and isinstance(gen.iter, ast.Name)):
+                    continue
+                source, target = e.func.value.id, gen.iter.id
+            elif isinstance(g, ast.Call) and dotted(g.func) == "map" and len(g.args) == 2 and isinstance(g.args[0], ast.Attribute) \
+                    and g.args[0].attr in ("index", "find") and isinstance(g.args[0].value, ast.Name) and isinstance(g.args[1], ast.Name):
+                source, target = g.args[0].value.id, g.args[1].id
+                if _roles(f, source, target) == "unknown":
+                    continue  # positions of a subset (axes to sum over, ...): not a layout change
+            else:
                 continue
-            gen = g.generators[0]
-            if not (isinstance(gen.target, ast.Name) and gen.target.id == e.args[0].id
-                    and isinstance(gen.iter, ast.Name)):
+            if fname not in anchors and _roles(f, source, target) == "unknown":
+                r.exempt(ctx.key(f, "C11-PERM", f"{len(r.instances)}"), C.loc(f, n),
+                         f"`{C.unparse(n, 50)}`: current and wanted layout not told apart here — not decided")
                 continue
-            source, target = e.func.value.id, gen.iter.id
             st = C.enclosing_stmt(f, n)
             tgt = C.unparse(st.targets[0]) if isinstance(st, ast.Assign) else "?"
             k = ctx.key(f, "C11-PERM", f"{len(r.instances)}")
